@@ -92,6 +92,11 @@ class Ledger(object):
     def solver_time(self, backend, dt):
         self.solver_s[backend] = self.solver_s.get(backend, 0.0) + dt
 
+    def guard_stats(self, checked, skipped):
+        g = self.extra.setdefault('normal_form_numeric_guard', {'equalities_re-evaluated_numerically': 0, 'evaluations_skipped': 0})
+        g['equalities_re-evaluated_numerically'] += checked
+        g['evaluations_skipped'] += skipped
+
     def ok(self, name, func, backend='normal-form', sample=None):
         self.obls.append((name, func, 'discharged', backend))
         self.backends[backend] = self.backends.get(backend, 0) + 1
@@ -224,6 +229,8 @@ def run_check(pid, body, level='proof'):
     led = Ledger(pid, level=level)
     try:
         body(led)
+        from . import numguard
+        led.guard_stats(numguard.STATS['checked'], numguard.STATS['skipped'])
     except Undecided as e:
         led.undecide('engine', 'cmverif', str(e))
     except Exception:
